@@ -154,6 +154,37 @@ def direct_submsgs(ix, fn, mapping=None):
     return list(seen)
 
 
+def _split_on_msg(ix, v, depth=2):
+    """a SubMsg whose `msg` is the result of a workspace builder with several outcomes (native / cw20 arm, pull / push)
+    stands for one construction per feasible outcome of that builder at this call"""
+    m = sym.field(v, "msg")
+    inner = m
+    while tag(inner) in ("unwrap", "ok"):
+        inner = kids(inner)[0]
+    if depth <= 0 or tag(inner) != "call" or tag(v) != "agg":
+        return [v]
+    t = ix.call_target(inner)
+    if t is None:
+        return [v]
+    try:
+        m2 = ix.param_map(t, list(kids(inner))[:t.arg_count])
+        oks = ix.ok_paths_at(t, m2)
+    except Exception:
+        return [v]
+    if len(oks) < 2:
+        return [v]
+    out = []
+    names = payload(v)[2]
+    for p in oks:
+        r = sym.subst(p.ret, m2)
+        r = sym.unwrap(r) if tag(r) == "agg" and payload(r)[1] == "Ok" else r
+        r = ix.inline(r)
+        vals = [r if n == "msg" else k for n, k in zip(names, kids(v))]
+        v2 = sym.agg(payload(v)[0], payload(v)[1], names, vals)
+        out.extend(_split_on_msg(ix, v2, depth - 1))
+    return out or [v]
+
+
 def reachable_submsgs(ix, fn, mapping=None, chain=(), depth=8):
     """SubMsg constructions reachable from fn with call-site substitution of parameters"""
     mapping = mapping or {}
@@ -165,7 +196,8 @@ def reachable_submsgs(ix, fn, mapping=None, chain=(), depth=8):
         return r
     out = []
     for a in direct_submsgs(ix, fn, mapping):
-        out.append(SubMsgSite(ix.inline(sym.subst(a, mapping)), fn, chain + (fn.pretty,)))
+        for v_ in _split_on_msg(ix, ix.inline(sym.subst(a, mapping))):
+            out.append(SubMsgSite(v_, fn, chain + (fn.pretty,)))
     if depth > 0:
         seen_calls = set()
         for p in ix.ok_paths(fn):
